@@ -72,6 +72,7 @@ type State struct {
 	events []Event
 	entry  *Snapshot
 	frames []*frame
+	next   Term // allocation frontier: every address existing in this state is below it
 	pcSet  map[string]bool
 	atServe map[string]Term // heaps right before the first ServeHTTP event
 }
@@ -179,6 +180,9 @@ type Exec struct {
 	instDone map[string]bool
 	recDepth map[string]int
 	lemmaText map[string]string
+	loopsDone map[*ssa.Function]bool
+	loopOrd  map[*ssa.BasicBlock]int
+	loopCon  map[*ssa.BasicBlock]*Contract
 	shared   map[string]string // body -> name of the shared definition
 }
 
@@ -357,15 +361,9 @@ func (x *Exec) oldHeapAxioms(sy, name string, elem Sort) {
 		return
 	}
 	x.declare("brk!", SInt)
-	switch {
-	case name == "MV!":
-		x.axioms[sy] = []string{fmt.Sprintf("(forall ((m!s Int) (k!s Str)) (! (< (sarr (select (select %s m!s) k!s)) brk!) :pattern ((select (select %s m!s) k!s))))", sy, sy)}
-	case strings.HasPrefix(name, "E!") && elem == SSlice:
-		x.axioms[sy] = []string{fmt.Sprintf("(forall ((m!s Int) (i!s Int)) (! (< (sarr (select (select %s m!s) i!s)) brk!) :pattern ((select (select %s m!s) i!s))))", sy, sy)}
-	case (strings.HasPrefix(name, "F!") || strings.HasPrefix(name, "C!")) && elem == SSlice:
-		x.axioms[sy] = []string{fmt.Sprintf("(forall ((a!s Int)) (! (< (sarr (select %s a!s)) brk!) :pattern ((select %s a!s))))", sy, sy)}
-	case strings.HasPrefix(name, "F!") && elem == SInt && x.fieldIsPointer(name):
-		x.axioms[sy] = []string{fmt.Sprintf("(forall ((a!s Int)) (! (< (select %s a!s) brk!) :pattern ((select %s a!s))))", sy, sy)}
+	f := x.heapFrontierFact(Term{sy, ""}, name, elem, Term{"brk!", SInt})
+	if f.S != "true" {
+		x.axioms[sy] = []string{f.S}
 	}
 }
 
@@ -559,17 +557,88 @@ func (x *Exec) wf(v Term, t types.Type) Term {
 	return True
 }
 
+// addrBound: every address held in a value of type t lies below the
+// allocation frontier nx (allocator invariant of the language semantics).
+func (x *Exec) addrBound(v Term, t types.Type, nx Term) Term {
+	switch u := t.Underlying().(type) {
+	case *types.Pointer, *types.Map, *types.Signature, *types.Chan:
+		return Lt(v, nx)
+	case *types.Slice:
+		return Lt(SlArr(v), nx)
+	case *types.Interface:
+		return Lt(IfPtr(v), nx)
+	case *types.Struct:
+		si := x.P.structOf(t)
+		var cs []Term
+		for i, f := range si.Fields {
+			if isArray(f.Ty) {
+				continue
+			}
+			cs = append(cs, x.addrBound(si.get(v, i), f.Ty, nx))
+		}
+		_ = u
+		return And(cs...)
+	}
+	return True
+}
+
+func (x *Exec) frontier(st *State) Term {
+	if st.next.IsZero() {
+		x.declare("brk!", SInt)
+		st.next = Term{"brk!", SInt}
+	}
+	return st.next
+}
+
+// wfA: well-formedness plus the allocator invariant for a value read or
+// received in state st.
+func (x *Exec) wfA(st *State, v Term, t types.Type) Term {
+	return And(x.wf(v, t), x.addrBound(v, t, x.frontier(st)))
+}
+
+// heapFrontierFact: all addresses stored in a (freshly havoced) heap lie
+// below the frontier nx.
+func (x *Exec) heapFrontierFact(h Term, name string, elem Sort, nx Term) Term {
+	sy := h.S
+	switch {
+	case name == "MV!":
+		return Term{fmt.Sprintf("(forall ((m!s Int) (k!s Str)) (! (< (sarr (select (select %s m!s) k!s)) %s) :pattern ((select (select %s m!s) k!s))))", sy, nx.S, sy), SBool}
+	case strings.HasPrefix(name, "E!") && elem == SSlice:
+		return Term{fmt.Sprintf("(forall ((m!s Int) (i!s Int)) (! (< (sarr (select (select %s m!s) i!s)) %s) :pattern ((select (select %s m!s) i!s))))", sy, nx.S, sy), SBool}
+	case strings.HasPrefix(name, "E!") && elem == SIface:
+		return Term{fmt.Sprintf("(forall ((m!s Int) (i!s Int)) (! (< (iptr (select (select %s m!s) i!s)) %s) :pattern ((select (select %s m!s) i!s))))", sy, nx.S, sy), SBool}
+	case (strings.HasPrefix(name, "F!") || strings.HasPrefix(name, "C!")) && elem == SSlice:
+		return Term{fmt.Sprintf("(forall ((a!s Int)) (! (< (sarr (select %s a!s)) %s) :pattern ((select %s a!s))))", sy, nx.S, sy), SBool}
+	case (strings.HasPrefix(name, "F!") || strings.HasPrefix(name, "C!")) && elem == SIface:
+		return Term{fmt.Sprintf("(forall ((a!s Int)) (! (< (iptr (select %s a!s)) %s) :pattern ((select %s a!s))))", sy, nx.S, sy), SBool}
+	case strings.HasPrefix(name, "F!") && elem == SInt && x.fieldIsPointer(name):
+		return Term{fmt.Sprintf("(forall ((a!s Int)) (! (< (select %s a!s) %s) :pattern ((select %s a!s))))", sy, nx.S, sy), SBool}
+	}
+	return True
+}
+
 // ---------- loops ----------
 
-func (x *Exec) findLoops() {
-	fn := x.fn
+func (x *Exec) findLoops() { x.findLoopsFor(x.fn, x.c) }
+
+func (x *Exec) findLoopsFor(fn *ssa.Function, c *Contract) {
+	if x.loopsDone == nil {
+		x.loopsDone = map[*ssa.Function]bool{}
+		x.loopOrd = map[*ssa.BasicBlock]int{}
+		x.loopCon = map[*ssa.BasicBlock]*Contract{}
+	}
+	if x.loopsDone[fn] {
+		return
+	}
+	x.loopsDone[fn] = true
+	var heads []*ssa.BasicBlock
 	for _, b := range fn.Blocks {
 		for _, s := range b.Succs {
 			if s.Dominates(b) {
 				// back edge b -> s
 				if x.loopOf[s] == nil {
 					x.loopOf[s] = map[*ssa.BasicBlock]bool{s: true}
-					x.loops = append(x.loops, s)
+					heads = append(heads, s)
 				}
 				// natural loop: all nodes that reach b without passing s
 				var stack []*ssa.BasicBlock
@@ -590,14 +659,16 @@ func (x *Exec) findLoops() {
 			}
 		}
 	}
-	sort.Slice(x.loops, func(i, j int) bool { return x.loops[i].Index < x.loops[j].Index })
+	sort.Slice(heads, func(i, j int) bool { return heads[i].Index < heads[j].Index })
+	for i, h := range heads {
+		x.loopOrd[h] = i
+		x.loopCon[h] = c
+	}
 }
 
 func (x *Exec) loopOrdinal(b *ssa.BasicBlock) int {
-	for i, h := range x.loops {
-		if h == b {
-			return i
-		}
+	if o, ok := x.loopOrd[b]; ok {
+		return o
 	}
 	return -1
 }
@@ -670,7 +741,6 @@ func (x *Exec) Run() (err error) {
 	st := &State{vals: map[ssa.Value]Val{}, heaps: map[string]Term{}, names: map[string]Val{}, open: map[*ssa.BasicBlock]bool{},
 		varnt: map[*ssa.BasicBlock][]Term{}, lallocs: map[*ssa.BasicBlock]int{}}
 	st.entry = &Snapshot{heaps: map[string]Term{}, names: map[string]Val{}}
-	var ptrs []Term
 	bind := func(name string, v ssa.Value) {
 		t := v.Type()
 		pn := "p!" + name
@@ -681,14 +751,7 @@ func (x *Exec) Run() (err error) {
 		st.entry.names[name] = val
 		st.assume(x.wf(val.T, t))
 		x.params = append(x.params, NamedVal{name, val})
-		x.declare("brk!", SInt)
-		switch t.Underlying().(type) {
-		case *types.Pointer, *types.Map:
-			ptrs = append(ptrs, val.T)
-			st.assume(Lt(val.T, Term{"brk!", SInt}))
-		case *types.Slice:
-			st.assume(Lt(SlArr(val.T), Term{"brk!", SInt}))
-		}
+		st.assume(x.addrBound(val.T, t, x.frontier(st)))
 	}
 	for _, p := range fn.Params {
 		bind(p.Name(), p)
@@ -793,6 +856,10 @@ func (x *Exec) runBlock(st *State, b *ssa.BasicBlock) {
 		}
 		x.checkInvariants(st, b, ord, "entry")
 		st = st.clone()
+		// the allocation frontier after an unknown number of iterations
+		nx := x.fresh("next", SInt)
+		st.assume(Le(x.frontier(st), nx))
+		st.next = nx
 		// havoc loop-carried registers
 		for _, in := range b.Instrs[:nphi] {
 			phi := in.(*ssa.Phi)
@@ -801,11 +868,13 @@ func (x *Exec) runBlock(st *State, b *ssa.BasicBlock) {
 			if phi.Comment != "" {
 				st.names[phi.Comment] = v
 			}
-			st.assume(x.wf(v.T, phi.Type()))
+			st.assume(x.wfA(st, v.T, phi.Type()))
 		}
 		for h, s := range x.heapsWrittenIn(body) {
 			hs := heapSort(h, s)
-			st.heaps[h] = x.fresh("Hl!"+h, hs)
+			nh := x.fresh("Hl!"+h, hs)
+			st.heaps[h] = nh
+			st.assume(x.heapFrontierFact(nh, h, s, nx))
 		}
 		st.open[b] = true
 		st.lallocs[b] = st.allocs
@@ -830,6 +899,21 @@ func (x *Exec) freshVal(prefix string, t types.Type) Val {
 	return Val{T: x.fresh(prefix, x.P.sortOf(t)), Ty: t}
 }
 
+func (x *Exec) invClausesAt(b *ssa.BasicBlock, kind string) []*Clause {
+	c := x.loopCon[b]
+	if c == nil {
+		return nil
+	}
+	ord := x.loopOrd[b]
+	var out []*Clause
+	for _, cl := range c.Invs {
+		if cl.Loop == ord && cl.Kind == kind {
+			out = append(out, cl)
+		}
+	}
+	return out
+}
+
 func (x *Exec) invClauses(ord int, kind string) []*Clause {
 	var out []*Clause
 	for _, c := range x.c.Invs {
@@ -841,7 +925,7 @@ func (x *Exec) invClauses(ord int, kind string) []*Clause {
 }
 
 func (x *Exec) checkInvariants(st *State, b *ssa.BasicBlock, ord int, phase string) {
-	for i, c := range x.invClauses(ord, "invariant") {
+	for i, c := range x.invClausesAt(b, "invariant") {
 		env := x.envFor(st, nil)
 		t := x.trBool(env, c.E)
 		lbl := c.Label
@@ -853,7 +937,7 @@ func (x *Exec) checkInvariants(st *State, b *ssa.BasicBlock, ord int, phase stri
 }
 
 func (x *Exec) assumeInvariants(st *State, b *ssa.BasicBlock, ord int) {
-	for _, c := range x.invClauses(ord, "invariant") {
+	for _, c := range x.invClausesAt(b, "invariant") {
 		env := x.envFor(st, nil)
 		st.assume(x.trBool(env, c.E))
 	}
@@ -861,7 +945,7 @@ func (x *Exec) assumeInvariants(st *State, b *ssa.BasicBlock, ord int) {
 
 func (x *Exec) evalVariant(st *State, b *ssa.BasicBlock, ord int) []Term {
 	var out []Term
-	for _, c := range x.invClauses(ord, "decreases") {
+	for _, c := range x.invClausesAt(b, "decreases") {
 		env := x.envFor(st, nil)
 		v := x.tr(env, c.E)
 		out = append(out, v.T)
@@ -870,7 +954,7 @@ func (x *Exec) evalVariant(st *State, b *ssa.BasicBlock, ord int) []Term {
 }
 
 func (x *Exec) checkVariant(st *State, b *ssa.BasicBlock, ord int) {
-	cls := x.invClauses(ord, "decreases")
+	cls := x.invClausesAt(b, "decreases")
 	if len(cls) == 0 {
 		return
 	}
